@@ -7,6 +7,8 @@ package breaker
 
 import (
 	"bufio"
+	"context"
+	"database/sql"
 	"encoding/json"
 	"fmt"
 	"os"
@@ -141,6 +143,29 @@ const (
 	VDPanic
 	VDWrappedCanceled
 )
+
+// %w-wrapped sentinels: every call site classifies with errors.Is / errors.As, not ==
+const (
+	VDWrappedDeadline           = 17
+	VDWrappedBreakerUnavailable = 18
+	VDWrappedSqlNoRows          = 19
+	VDWrappedSqlTxDone          = 20
+)
+
+// VerifWrapped returns the wrapped sentinel of the class (nil for every other class).
+func VerifWrapped(class int64) error {
+	switch class {
+	case VDWrappedDeadline:
+		return fmt.Errorf("verif: %w", context.DeadlineExceeded)
+	case VDWrappedBreakerUnavailable:
+		return fmt.Errorf("verif: downstream: %w", ErrServiceUnavailable)
+	case VDWrappedSqlNoRows:
+		return fmt.Errorf("verif: %w", sql.ErrNoRows)
+	case VDWrappedSqlTxDone:
+		return fmt.Errorf("verif: %w", sql.ErrTxDone)
+	}
+	return nil
+}
 
 // what the caller sees
 const (
